@@ -1,7 +1,62 @@
-(* C10 - wire encoding and decoding are exact inverses; packets are well-framed. *)
-From VModel Require Import Wire.
-From VProofs Require Import WireProofs.
+(* C10 - wire encoding and decoding are exact inverses; packets are well-framed.
+   Statements only; proofs are `exact <lemma>` from proofs/WireProofs.v and proofs/NetProofs.v. *)
+From VModel Require Import Net.
+From VProofs Require Import WireProofs NetProofs.
 Open Scope list_scope. Open Scope Z_scope.
 
-Theorem c10_be_bytes_length : forall k v, List.length (be_bytes k v) = k.
-Proof. exact be_bytes_length. Qed.
+Theorem c10_byte_roundtrip : forall v r bs, enc_byte v = Ok bs -> dec_byte (bs ++ r) = Ok (v, r).
+Proof. exact byte_roundtrip. Qed.
+
+Theorem c10_bool_roundtrip : forall b r, dec_bool (enc_bool b ++ r) = Ok (b, r).
+Proof. exact bool_roundtrip. Qed.
+
+Theorem c10_u32_roundtrip : forall v r bs, enc_u32 v = Ok bs -> dec_u32 (bs ++ r) = Ok (v, r).
+Proof. exact u32_roundtrip. Qed.
+
+Theorem c10_string_roundtrip : forall s r bs, enc_string s = Ok bs -> dec_string (bs ++ r) = Ok (s, r).
+Proof. exact string_roundtrip. Qed.
+
+(* name-lists: non-empty list, no name contains a comma (RFC 4251 names never do) *)
+Theorem c10_namelist_roundtrip : forall l r bs,
+  l <> [] -> Forall (no_sep 44) l -> enc_namelist l = Ok bs -> dec_namelist (bs ++ r) = Ok (l, r).
+Proof. exact namelist_roundtrip. Qed.
+
+(* decoding then re-encoding the text of a name-list gives the same text, for EVERY byte string *)
+Theorem c10_namelist_reencode : forall s, join_bytes 44 (split_bytes 44 s) = s.
+Proof. exact (join_split 44). Qed.
+
+(* SSH-2 mpint, both signs, unbounded: the reader's 32-bit word loop inverts the writer *)
+Theorem c10_mpint2_roundtrip : forall n r bs, enc_mpint2 n = Ok bs -> dec_mpint2 (bs ++ r) = Ok (n, r).
+Proof. exact mpint2_roundtrip. Qed.
+
+(* the reader computes the RFC 4251 two's complement value of ANY well-formed string *)
+Theorem c10_mpint2_reader_is_twos_complement : forall v r bs,
+  wfb v -> enc_string v = Ok bs -> dec_mpint2 (bs ++ r) = Ok (mpint2_value v, r).
+Proof. exact dec_mpint2_value. Qed.
+
+(* the writer emits the two's complement value in at most bitlen/8+1 bytes (no redundant sign byte) *)
+Theorem c10_mpint2_writer_value : forall n, mpint2_value (create_mpint n true (bitlen n)) = n.
+Proof. exact mpint2_value_create. Qed.
+Theorem c10_mpint2_writer_minimal : forall n, zlen (create_mpint n true (bitlen n)) <= mp_len n.
+Proof. exact create_mpint_signed_length. Qed.
+
+(* recorded finding: SSH-1 mpints of negative numbers cannot round-trip *)
+Theorem c10_mpint1_negative_refuted : exists n bs, n < 0 /\ enc_mpint1 n = Ok bs /\ dec_mpint1 bs <> Ok (n, []).
+Proof. exact mpint1_negative_refuted. Qed.
+
+(* RFC 4253 section 6, for every payload *)
+Theorem c10_frame_wf : forall payload data,
+  frame payload = Ok data ->
+  let pad := pad_len (zlen payload) in
+  data = be_bytes 4 (zlen payload + pad + 1) ++ [pad] ++ payload ++ repeat 0 (Z.to_nat pad)
+  /\ zlen data = 4 + (zlen payload + pad + 1)
+  /\ zlen data mod 8 = 0
+  /\ 4 <= pad <= 255
+  /\ val (firstn 4 data) = zlen data - 4.
+Proof. exact frame_wf. Qed.
+
+(* the tool's own packet reader returns exactly what was framed, whatever follows, for all lengths *)
+Theorem c10_read_frame : forall t pl data rest cs e,
+  frame (t :: pl) = Ok data ->
+  read_packet2 (mk (data ++ rest) cs e) = (mk rest cs e, PktOk t pl).
+Proof. exact read_frame. Qed.
